@@ -151,13 +151,16 @@ theorem intoDynF_data (E : Ext) (classes : List (String × Conv)) (enums : List 
     | dict kvs =>
       simp only [Val.isData, Bool.and_eq_true, List.all_eq_true] at hv; simp only [Val.depth] at hd
       obtain ⟨⟨hkv, hh⟩, hdist⟩ := hv
-      have hone : exMapM (dictOne (intoDynF E classes enums n) (intoDynF E classes enums n)) kvs = .ok kvs := by
-        have : ∀ p ∈ kvs, dictOne (intoDynF E classes enums n) (intoDynF E classes enums n) p = .ok p := by
+      have hde : ∀ x : Val, x.isData = true → dynElem E (intoDynF E classes enums n) x = intoDynF E classes enums n x := by
+        intro x hx
+        cases x <;> first | rfl | (simp [Val.isData] at hx)
+      have hone : exMapM (dictOne (dynElem E (intoDynF E classes enums n)) (dynElem E (intoDynF E classes enums n))) kvs = .ok kvs := by
+        have : ∀ p ∈ kvs, dictOne (dynElem E (intoDynF E classes enums n)) (dynElem E (intoDynF E classes enums n)) p = .ok p := by
           intro p hp
           have hp' := Val.allDataKV_iff.1 hkv p hp
           have hdp := Val.depth_le_depthKV hp
           have hlt := Nat.lt_of_succ_lt_succ hd
-          simp only [dictOne, intoDynF_data E classes enums n p.1 hp'.1 (Nat.lt_of_le_of_lt hdp.1 hlt),
+          simp only [dictOne, hde p.1 hp'.1, hde p.2 hp'.2, intoDynF_data E classes enums n p.1 hp'.1 (Nat.lt_of_le_of_lt hdp.1 hlt),
             intoDynF_data E classes enums n p.2 hp'.2 (Nat.lt_of_le_of_lt hdp.2 hlt), Except.map]
         clear hkv hh hdist hd
         induction kvs with
@@ -168,7 +171,7 @@ theorem intoDynF_data (E : Ext) (classes : List (String × Conv)) (enums : List 
       have hb : buildDict kvs = .ok kvs := buildDict_id
         (fun p hp => hh p.1 (List.mem_map_of_mem hp)) hdist
       have : intoDynF E classes enums (n + 1) (.dict kvs) =
-          match exMapM (dictOne (intoDynF E classes enums n) (intoDynF E classes enums n)) kvs with
+          match exMapM (dictOne (dynElem E (intoDynF E classes enums n)) (dynElem E (intoDynF E classes enums n))) kvs with
           | .error e => .error e
           | .ok kvs' => (buildDict kvs').map .dict := by
         simp only [intoDynF]; rfl
